@@ -6,6 +6,7 @@ import (
 	"fmt"
 	"reflect"
 	"sort"
+	"strconv"
 	"strings"
 
 	"github.com/hashicorp/go-memdb"
@@ -31,6 +32,8 @@ type Query struct {
 	Unordered bool
 	// DeepUnordered: nested lists are assembled from maps as well (service topology).
 	DeepUnordered bool
+	// Key: for KVSGet, the key (such a read can be served by the real KVS.Get endpoint).
+	Key string
 	// Single: a read of one item; its endpoint answers blockingquery.ErrNotFound when there is none.
 	Single bool
 	// NoIndex: the store method reports no query index (the wrapper returns a constant).
@@ -125,6 +128,11 @@ func Battery(u Universe, keys []string, sessions []string, extra BatteryExtra) [
 	var qs []Query
 	add := func(group, name string, f func(s *state.Store, ws memdb.WatchSet) (uint64, any, error)) {
 		q := Query{Name: name, Group: group, Run: f}
+		if strings.HasPrefix(name, "KVSGet(") {
+			if k, err := strconv.Unquote(strings.TrimSuffix(strings.TrimPrefix(name, "KVSGet("), ")")); err == nil {
+				q.Key = k
+			}
+		}
 		switch strings.SplitN(name, "(", 2)[0] {
 		case "KVSGet", "SessionGet", "ConfigEntry", "ACLPolicyGetByID", "ACLRoleGetByID", "ACLTokenGetByAccessor", "PeeringRead", "PeeringTrustBundleRead":
 			q.Single = true
